@@ -266,7 +266,10 @@ _set_setstate(Bucket *self, PyObject *args)
         k=PyTuple_GET_ITEM(items, i);
         COPY_KEY_FROM_ARG(self->keys[i], k, copied);
         UNLESS (copied)
+        {
+            self->len = i;  /* we own the references taken so far */
             return -1;
+        }
         INCREF_KEY(self->keys[i]);
     }
 
